@@ -70,7 +70,7 @@ PROPS = {
               'record write precedes publish and the published offset is the running end; reader / writer / tail-drop byte layout constants agree with the struct formats; '
               'mmap store only when offset+size <= capacity is established; .meta only replaced via tmp+move; tail drop walks backwards, counts before cutting the mirror, '
               'stores and publishes the final offset; sibling journals implement the same interface and every mutator updates mirror and file.'
-              ' Also: in-memory / published end offset coherence for every operation, and the publish helper skips the header write only against a cache primed from the file; the stored commit index changes only through its setter; the reopening reader never stops at a record size the writer can produce (empty command included).',
+              ' Also: in-memory / published end offset coherence for every operation, and the publish helper skips the header write only against a cache primed from the file; the stored commit index changes only through its setter; the reopening reader never stops at a record size the writer can produce (empty command included); an early return of the head drop agrees with the list model; a failed in-place resize is made up for by growing and re-mapping the file.',
               ['equality with an in-memory list for all operation sequences (byte-level round trip)', 'head drop kill-safety (known finding)'],
               'ordering on CFGs, must-facts for the bounded write, table agreement against struct.calcsize, sibling cross-check'),
     'C09': _p(['R-payload-complete', 'R-version-in-payload', 'R-no-field-leak', 'R-snapshot-point', 'R-dump-atomic', 'R-version-pairing', 'R-transfer-restart', 'R-transfer-flags', 'R-dump-before-trim', 'R-serializer-idle', 'L-undefined-name', 'R-consumer-payload', 'R-fork-child-exits'],
@@ -90,7 +90,7 @@ PROPS = {
     'C11': _p(['R-chunk-length', 'R-chunk-kinds', 'R-cmd-shapes', 'R-wire-schema', 'R-bounded-write', 'R-read-ungated', 'L-undefined-name', 'R-owners-chunk-buffer'],
               'the chunk classifier uses the length of the sliced sequence and yields start, process*, finish for every size; sender kinds = receiver kinds with the right buffer effect '
               'per kind; command pack/unpack shapes agree and reserved keywords are removed before pickling; every key the handler reads is written by every consistent sender; journal write bounded.'
-              ' Also: socket reads are never gated on the amount already buffered (a frame may exceed any buffer size); every first / middle chunk is acknowledged before the handler returns.',
+              ' Also: socket reads are never gated on the amount already buffered (a frame may exceed any buffer size); every first / middle chunk is acknowledged before the handler returns; the chunk buffer is written by the handler only.',
               ['equality of pickled arguments after transport (round trip)', 'exact batch arithmetic of __getEntries'],
               'small-domain evaluation of the extracted classifier, path-sensitive effect sequences, wire-schema agreement under must-facts'),
     'C12': _p(['R-user-exc-contained', 'R-apply-step', 'L-undefined-name'],
@@ -107,19 +107,19 @@ PROPS = {
     'C14': _p(['R-attribution', 'R-drop-teardown', 'R-dial-order', 'R-send-connected', 'R-silent-timeout', 'R-reconnect-wiring', 'R-disconnect-idempotent', 'R-readonly-id-unique', 'R-disc-attribution', 'R-established-checked', 'L-undefined-name', 'R-callback-wiring', 'L-none-call', 'R-connecting-registered', 'R-interval-clock'],
               'attribution only: delivery callback bound only after the peer named a known member or "readonly", bound node taken from the member table; dropNode tears down registry, '
               'member set, address table and connection; exactly one endpoint dials and only without a live connection; send only to a registered CONNECTED connection.'
-              ' Also: a lost connection is attributed to a member only by comparing the registry entries with the connection object; CONNECTED is entered only behind a clear SO_ERROR; CONNECTING is never left behind without a poller subscription; retry and silence intervals are measured on the monotonic clock.',
+              ' Also: a lost connection is attributed to a member only by comparing the registry entries with the connection object; CONNECTED is entered only behind a clear SO_ERROR; CONNECTING is never left behind without a poller subscription; retry and silence intervals are measured on the monotonic clock; every read event refreshes the silence stamp; a recognised member is never refused its new connection.',
               ['reconnection within bounded time', 'half-open connection handling', 'accuracy of connect/disconnect notifications under fault sequences'],
               'must-fact guard entailment, effect multiset per path'),
     'C15': _p(['R-delegate-agree', 'R-counter-ops', 'R-queue-bound', 'R-consumer-state', 'R-cmd-shapes', 'R-none-is-a-value', 'R-heap-discipline', 'L-undefined-name', 'R-consumer-payload', 'R-reset-replaces'],
               'every delegating battery method agrees with the builtin it forwards to (operation, parameter order, defaults, returned value; documented deviations tabled); counter arithmetic; '
               'bounded queues insert only below the bound, report acceptance truthfully, remove in queue order; battery state is created where it gets serialised.'
-              ' Also: no wrapper decides absence of a key from a None lookup result (None is a value); a wrapper named like a builtin operation passes every parameter to it.',
+              ' Also: no wrapper decides absence of a key from a None lookup result (None is a value); a wrapper named like a builtin operation passes every parameter to it; reset() replaces the container.',
               ['behavioural equivalence over operation sequences for the non-delegating methods', 'equality of replicas'],
               'signature-table agreement (cross-checked with inspect.signature of builtins), guard entailment'),
     'C16': _p(['R-lock-guards', 'R-expiry-partition', 'R-late-acquire', 'L-undefined-name', 'L-none-call', 'R-lock-client-identity'],
               'lock table transitions happen only under their guards; holder view and taker views of expiry are disjoint over (d<U, d=U, d>U); both acquisition paths apply the same '
               'late-acquire test, report failure and release; prolongation period at most half the auto-unlock time.'
-              ' Also: after the "too late" test every path releases the lock and reports False, and both ends of the elapsed time come from the same clock; isAcquired is analysed also when written as one boolean return.',
+              ' Also: after the "too late" test every path releases the lock and reports False, and both ends of the elapsed time come from the same clock; isAcquired is analysed also when written as one boolean return; every lock-table call gets a clock read as the current time; the default client id holds process and object id.',
               ['exclusion under commit delay with unsynchronised clocks', 'eventual obtainability under partitions'],
               'guard entailment, comparator partition over a three-point domain, sibling agreement'),
     'C17': _p(['R-id-order', 'R-name-format', 'R-setversion-guards', 'R-version-select', 'R-version-apply', 'R-apply-step', 'R-version-pairing', 'R-version-in-payload', 'R-enumeration-siblings', 'L-undefined-name'],
@@ -144,7 +144,7 @@ PROPS = {
     'C20': _p(['R-fallback-every-tick', 'R-response-time-writes', 'R-hasquorum', 'R-majority', 'R-owners-liveness', 'L-undefined-name', 'R-state-before-notify'],
               'a leader reaches the fallback test on every tick; responders counted iff they answered within leaderFallbackTimeout over the voter set; failing arm => FOLLOWER and no leader; '
               'response times refreshed only by replies received as leader; hasQuorum equals strict majority of connected voters (+self) for n=0..8.'
-              ' Also: a connection event never refreshes the response table; a voter without an entry never counts as recent; the table has fixed owners; a majority threshold kept in an attribute is recomputed wherever the voter set changes.',
+              ' Also: a connection event never refreshes the response table; a voter without an entry never counts as recent; the table has fixed owners; a majority threshold kept in an attribute is recomputed wherever the voter set changes; the fallback deadline is now minus the configured timeout itself; the state setter stores the state before it notifies.',
               ['the time bound itself', '"no SUCCESS while cut off"'],
               'CFG reachability, small-domain evaluation by a mini interpreter over the extracted property body'),
 }
